@@ -171,6 +171,29 @@ theorem C09_gate_zip_member (inflate : Bytes → Nat → Option Bytes) (junk : B
 example : zipMember (fun _ _ => none) [0xbe, 0xbe, 0xbe] ⟨8, 0, 0, 3, 0x352441c2⟩ (some [1, 2, 3]) = none := by
   decide +kernel
 
+/-! ### zip, the whole reader: EOCD search, central directory, member selection, local header -/
+
+/-- **zip, whole-archive gate.**  If `decrunch_zip` accepts the file `f` (any inflater, any exclusion
+    matcher), then some central-directory record at offset `p` — one that passed
+    `mz_zip_reader_init`'s sanity tests, is a supported non-excluded file — was extracted, and unless
+    its compressed size is 0 the output passed **that record's CRC-32 and uncompressed size**.  The
+    local file header's own CRC/size fields and any data descriptor play no role (the reader never
+    looks at them).  For a record whose 32-bit size fields do not hold the zip64 escape `0xFFFFFFFF`
+    and that declares a non-zero size, the compressed size cannot be 0, so the CRC was compared. -/
+theorem C09_gate_zip_archive (env : ZipEnv) (f out : Bytes) (h : zipDepack env f = some out) :
+    ∃ p st lho, zipStat f p = some (st, lho) ∧ le32 f p = 0x02014b50 ∧ st.crc32 = le32 f (p + 16) ∧
+      (st.compSize ≠ 0 → le32 f (p + 16) = (crc32A out 0).toNat ∧ st.uncompSize = out.length) ∧
+      (st.compSize = 0 → out = env.junk st.uncompSize) ∧
+      (le32 f (p + 20) ≠ 0xFFFFFFFF → le32 f (p + 24) ≠ 0xFFFFFFFF → le32 f (p + 24) ≠ 0 →
+          le32 f (p + 16) = (crc32A out 0).toNat ∧ le32 f (p + 24) = out.length) := by
+  obtain ⟨p, st, lho, hst, sane, c, _, _, _, g, j, e1, e2⟩ := gate_zipDepack env f out h
+  refine ⟨p, st, lho, hst, sane.sig, c, ?_, j, ?_⟩
+  · intro hc; rw [← c]; exact g hc
+  · intro a b z
+    have hc : st.compSize ≠ 0 := by rw [e1 a]; exact sane.sizes a b z
+    rw [← c, ← e2 b]
+    exact g hc
+
 theorem C09_gate_bzip2 (blocks : List (BitVec 32 × Bytes)) (sc : BitVec 32) (out : Bytes)
     (h : bzDepack blocks sc = some out) :
     (∀ b ∈ blocks, b.1 = bzBlockCrc b.2) ∧ out = (blocks.map (·.2)).flatten ∧
@@ -188,11 +211,181 @@ theorem C09_bzip2_stream_crc_unchecked (hd : Crc.Gen.bzStreamCrcDead = true)
     bzDepack blocks sc = bzDepack blocks sc' :=
   bz_stream_crc_ignored hd 0 [] blocks sc sc'
 
+/-! ### bzip2: the stream CRC is compared (since /repo b6ac87c) -/
+
+/-- the generated fact of the tree as it is: `write_bunzip_data` hands RETVAL_LAST_BLOCK to
+    `decrunch_bzip2` at the end-of-stream header, so `headerCRC == totalCRC` is evaluated.
+    (Should the source regress to the dead comparison, the generator flips the fact and this theorem
+    — and with it the check — fails.) -/
+theorem C09_bzip2_stream_crc_live : Crc.Gen.bzStreamCrcDead = false := rfl
+
+/-- **bzip2, stream level**: acceptance ⇒ every block header CRC is the CRC of the block's data
+    **and** the stored stream CRC equals the combination `t ↦ rotl(t,1) ^ blockCRC` of all block CRCs -/
+theorem C09_gate_bzip2_stream (blocks : List (BitVec 32 × Bytes)) (sc : BitVec 32) (out : Bytes)
+    (h : bzDepack blocks sc = some out) :
+    (∀ b ∈ blocks, b.1 = bzBlockCrc b.2) ∧ out = (blocks.map (·.2)).flatten ∧
+      sc = bzStreamCrc 0 (blocks.map (·.2)) := by
+  obtain ⟨h1, h2, h3⟩ := C09_gate_bzip2 blocks sc out h
+  exact ⟨h1, h2, h3 C09_bzip2_stream_crc_live⟩
+
+/-- the combination rule loses nothing: it is injective in the block CRC and in the running total,
+    hence a change of exactly one block CRC changes the stream CRC, whatever precedes and follows -/
+theorem C09_bzip2_combine_injective :
+    (∀ t d d' : BitVec 32, bzCombine t d = bzCombine t d' → d = d') ∧
+    (∀ t t' d : BitVec 32, bzCombine t d = bzCombine t' d → t = t') ∧
+    (∀ (t : BitVec 32) (A C : List Bytes) (d d' : Bytes), bzBlockCrc d ≠ bzBlockCrc d' →
+        bzStreamCrc t (A ++ d :: C) ≠ bzStreamCrc t (A ++ d' :: C)) :=
+  ⟨bzCombine_inj_data, bzCombine_inj_total, bzStreamCrc_single⟩
+
+/-- **bzip2, damage caught by the stream CRC**: the stream is refused
+    * if the stored stream CRC is anything but the combination of the decoded blocks' CRCs (the
+      stream-CRC field itself was hit), or
+    * if the stored stream CRC is intact (that of the packed blocks `A ++ d :: C`) and exactly one
+      block decodes to data `d'` of a different CRC — in particular within one ≤ 32-bit burst of `d` —
+      *even when that block's own header CRC was altered to match `d'`*. -/
+theorem C09_reject_bzip2_stream (blocks : List (BitVec 32 × Bytes)) (sc : BitVec 32) (out : Bytes)
+    (hbad : sc ≠ bzStreamCrc 0 (blocks.map (·.2)) ∨
+            (∃ A C d d', blocks.map (·.2) = A ++ d' :: C ∧ sc = bzStreamCrc 0 (A ++ d :: C) ∧
+                (bzBlockCrc d ≠ bzBlockCrc d' ∨ BitBurstM 32 d d'))) :
+    bzDepack blocks sc ≠ some out := by
+  intro h
+  obtain ⟨_, _, h3⟩ := C09_gate_bzip2_stream blocks sc out h
+  rcases hbad with hne | ⟨A, C, d, d', hb, hs, hd⟩
+  · exact hne h3
+  · have hd' : bzBlockCrc d ≠ bzBlockCrc d' := by
+      rcases hd with hd | hd
+      · exact hd
+      · exact C09_bzcrc_detects d d' hd
+    rw [hb] at h3
+    exact bzStreamCrc_single 0 A C d d' hd' (hs.symm.trans h3)
+
+/-- flipping one bit of a 32-bit field changes it -/
+theorem bv_flip_ne (v : BitVec 32) (k : Nat) (hk : k < 32) : v ^^^ (1#32 <<< k) ≠ v := by
+  intro h
+  have h1 : (1#32 <<< k) = 0#32 := by
+    have := congrArg (v ^^^ ·) h
+    simpa [← BitVec.xor_assoc] using this
+  have h2 := congrArg (fun x => x.getLsbD k) h1
+  simp [hk] at h2
+
+/-- **single damaged CRC field**: if a stream is accepted, the same stream with one bit flipped in
+    the stored stream CRC, or in one block's header CRC (whatever the stream CRC then is), is refused -/
+theorem C09_reject_bzip2_crc_field_flip (k : Nat) (hk : k < 32) :
+    (∀ blocks sc out, bzDepack blocks sc = some out → bzDepack blocks (sc ^^^ (1#32 <<< k)) = none) ∧
+    (∀ A C hc d sc out sc', bzDepack (A ++ (hc, d) :: C) sc = some out →
+        bzDepack (A ++ (hc ^^^ (1#32 <<< k), d) :: C) sc' = none) := by
+  refine ⟨?_, ?_⟩
+  · intro blocks sc out h
+    obtain ⟨_, _, h3⟩ := C09_gate_bzip2_stream blocks sc out h
+    cases h' : bzDepack blocks (sc ^^^ (1#32 <<< k)) with
+    | none => rfl
+    | some o =>
+      obtain ⟨_, _, h3'⟩ := C09_gate_bzip2_stream blocks _ o h'
+      exact absurd (h3'.trans h3.symm) (bv_flip_ne sc k hk)
+  · intro A C hc d sc out sc' h
+    obtain ⟨h1, _, _⟩ := C09_gate_bzip2_stream _ sc out h
+    have e1 : hc = bzBlockCrc d := h1 (hc, d) (by simp)
+    cases h' : bzDepack (A ++ (hc ^^^ (1#32 <<< k), d) :: C) sc' with
+    | none => rfl
+    | some o =>
+      obtain ⟨h1', _, _⟩ := C09_gate_bzip2_stream _ sc' o h'
+      have e2 : hc ^^^ (1#32 <<< k) = bzBlockCrc d := h1' (hc ^^^ (1#32 <<< k), d) (by simp)
+      exact absurd (e2.trans e1.symm) (bv_flip_ne hc k hk)
+
 theorem C09_gate_xz (hdr bh : Bytes) (chunks : List Bytes) (check : Nat) (index : Bytes) (icrc : Nat)
     (footer out : Bytes) (h : xzAccept hdr bh chunks check index icrc footer = some out) :
     out = chunks.flatten ∧ check = (crc32A out 0).toNat ∧ xzStreamHeader hdr = some 1 ∧
       xzBlockHeaderOk bh = true ∧ xzIndexOk index icrc = true ∧ xzFooterOk footer index.length 1 = true :=
   gate_xz hdr bh chunks check index icrc footer out h
+
+/-! ### xz, byte level: the whole container as `xz_dec_stream.c` walks it, any LZMA2 decoder -/
+
+/-- **xz, byte-level gate.**  If `decrunch_xz` accepts the file `f` (for *any* LZMA2 decoder `lz`),
+    then there is a parse `P` (blocks with their offsets, Index and Stream Footer offsets) such that
+    the output is the concatenation of the blocks' outputs and **every stored CRC-32 of the container
+    equals the computed one**: Stream Header flags, every Block Header, every Block's Check field
+    against the CRC-32 of that block's decoded output (check type CRC-32), the Index, the Stream
+    Footer; moreover the Index holds exactly one Record per Block whose running size hash equals the
+    blocks', the Backward Size is the Index size and the footer's Stream Flags equal the header's. -/
+theorem C09_gate_xz_stream (lz : Nat → Bytes → Option (Nat × List Bytes)) (f out : Bytes)
+    (h : xzDepack lz f = some out) :
+    ∃ P : XzParse, xzParse lz f = some P ∧ out = P.output ∧
+      -- Stream Header
+      slice f 0 6 = [0xfd, 0x37, 0x7a, 0x58, 0x5a, 0x00] ∧ (crc32A (slice f 6 2) 0).toNat = le32 f 8 ∧
+      u8 f 6 = 0 ∧ u8 f 7 = P.ct ∧
+      -- Blocks
+      (∀ b ∈ P.blocks,
+        (crc32A (slice f b.pos (b.hdr.size - 4)) 0).toNat = le32 f (b.pos + (b.hdr.size - 4)) ∧
+        lz b.hdr.props (f.drop (b.pos + b.hdr.size)) = some (b.consumed, b.chunks) ∧
+        xzSizeOk b.hdr.comp b.consumed = true ∧ xzSizeOk b.hdr.uncomp b.chunks.flatten.length = true ∧
+        (slice f (b.pos + b.hdr.size + b.consumed) ((4 - b.consumed % 4) % 4)).any (· != 0) = false ∧
+        (P.ct = 1 → le32 f b.checkPos = (crc32A b.chunks.flatten 0).toNat)) ∧
+      -- Index
+      u8 f P.indexPos = 0 ∧
+      (crc32A (slice f P.indexPos (P.footerPos - 4 - P.indexPos)) 0).toNat = le32 f (P.footerPos - 4) ∧
+      (∃ q r, xzVli f (P.indexPos + 1) f.length = some (P.blocks.length, q) ∧
+              xzIndexRecords f P.blocks.length q {} = some (r, xzBlocksHash P.ct P.blocks)) ∧
+      -- Stream Footer
+      slice f (P.footerPos + 10) 2 = [0x59, 0x5a] ∧
+      (crc32A (slice f (P.footerPos + 4) 6) 0).toNat = le32 f P.footerPos ∧
+      (P.footerPos - 4 - P.indexPos) / 4 = le32 f (P.footerPos + 4) ∧
+      u8 f (P.footerPos + 8) = u8 f 6 ∧ u8 f (P.footerPos + 9) = u8 f 7 := by
+  obtain ⟨P, hp, ho, ok⟩ := gate_xzDepack lz f out h
+  obtain ⟨m, c, z, t, _⟩ := gate_xzStreamHeader f P.ct ok.header
+  obtain ⟨f1, f2, f3, f4, f5⟩ := xzFooterOk_file f _ _ _ ok.footer
+  obtain ⟨q, r, i1, i2, _⟩ := ok.index.count
+  refine ⟨P, hp, ho, m, c, z, t.symm, ?_, ok.indicator, ok.index.crc, ⟨q, r, i1, i2⟩, f1, f2, f3, by rw [f4, z], by rw [f5, t]⟩
+  intro b hb
+  have bo := ok.blocks b hb
+  exact ⟨(gate_xzBlockHeaderAt f b.pos b.hdr bo.hdr).2.2, bo.dec, bo.comp, bo.uncomp, bo.pad, bo.check⟩
+
+/-- the per-block statement at payload level: with check type CRC-32, the accepted output is the
+    concatenation of pieces each of which passed its own stored CRC-32 -/
+theorem C09_gate_xz_stream_payload (lz : Nat → Bytes → Option (Nat × List Bytes)) (f out : Bytes)
+    (h : xzDepack lz f = some out) (hc : u8 f 7 = 1) :
+    ∃ parts : List (Nat × Bytes), out = (parts.map (·.2)).flatten ∧
+      ∀ x ∈ parts, le32 f x.1 = (crc32A x.2 0).toNat := by
+  obtain ⟨P, _, ho, _, _, _, hct, hb, _⟩ := C09_gate_xz_stream lz f out h
+  refine ⟨P.blocks.map (fun b => (b.checkPos, b.chunks.flatten)), ?_, ?_⟩
+  · rw [ho]; unfold XzParse.output; simp [List.map_map, Function.comp_def]
+  · intro x hx
+    obtain ⟨b, hb', rfl⟩ := List.mem_map.mp hx
+    exact (hb b hb').2.2.2.2.2 (hct.symm.trans hc)
+
+/-- **xz: the Index agrees with the blocks.**  In an accepted file the Index holds exactly one
+    Record per decoded Block, and the Records' total Uncompressed Size equals the length of the
+    output, their total Unpadded Size the blocks' header + compressed data + Check sizes (both
+    mod 2⁶⁴, the width of `vli_type`). -/
+theorem C09_xz_index_matches_blocks (lz : Nat → Bytes → Option (Nat × List Bytes)) (f out : Bytes)
+    (h : xzDepack lz f = some out) :
+    ∃ (P : XzParse) (recs : List (Nat × Nat)) (q : Nat), xzParse lz f = some P ∧
+      xzVli f (P.indexPos + 1) f.length = some (P.blocks.length, q) ∧
+      xzRecs f P.blocks.length q = some recs ∧ recs.length = P.blocks.length ∧
+      (recs.map (·.2)).sum % 2 ^ 64 = out.length % 2 ^ 64 ∧
+      (recs.map (·.1)).sum % 2 ^ 64 =
+        (P.blocks.map (fun b => b.hdr.size + b.consumed + xzCheckSize P.ct)).sum % 2 ^ 64 := by
+  obtain ⟨P, hp, ho, _, _, _, _, _, _, _, ⟨q, r, hq, hr⟩, _⟩ := C09_gate_xz_stream lz f out h
+  obtain ⟨recs, e1, e2, e3, e4⟩ := xzIndexRecords_sums f _ _ _ _ _ hr
+  obtain ⟨b1, b2⟩ := xzBlocksHash_sums P.ct P.blocks {}
+  refine ⟨P, recs, q, hp, hq, e1, e2, ?_, ?_⟩
+  · have : out.length = (P.blocks.map (fun b => b.chunks.flatten.length)).sum := by rw [ho]; exact output_length P
+    rw [this]
+    have e4' := e4
+    simp only [Nat.zero_add] at e4' b2
+    unfold xzBlocksHash at e4'
+    rw [← e4', b2]
+  · have e3' := e3
+    simp only [Nat.zero_add] at e3' b1
+    unfold xzBlocksHash at e3'
+    rw [← e3', b1]
+
+/-- **zip: the End Of Central Directory record** the reader works from is where the backwards scan
+    finds it: it carries the signature `PK\x05\x06` and its 22 bytes lie inside the file. -/
+theorem C09_gate_zip_eocd (env : ZipEnv) (f out : Bytes) (h : zipDepack env f = some out) :
+    ∃ e, zipFindEocd f = some e ∧ le32 f e = 0x06054b50 ∧ e + 22 ≤ f.length := by
+  obtain ⟨l, hl⟩ := zipDepack_open env f out h
+  obtain ⟨e, he⟩ := zipOpen_eocd f l hl
+  exact ⟨e, he, zipFindEocd_sound f e he⟩
 
 theorem C09_gate_arc (env : ArcEnv) (f out : Bytes) (h : arcDepack env f = some out) :
     ∃ pos, le16 f (pos + 23) = (crc16IBM out 0).toNat :=
@@ -251,6 +444,15 @@ example : bzDepack [(0x648cbb73#32, exPayload)] 0x648cbb73#32 = some exPayload :
 example : bzDepack [(0x648cbb72#32, exPayload)] 0x648cbb73#32 = none := by decide +kernel
 example : bzDepack [(0x648cbb73#32, [0x61, 0x62, 0x62])] 0x648cbb73#32 = none := by decide +kernel
 
+/-- two blocks `ab`, `c`: CRCs as libbz2 writes them; intact stream accepted, a flipped stream-CRC bit,
+    and a block whose data *and* header CRC were replaced consistently, both refused -/
+example : bzDepack [(bzBlockCrc [0x61, 0x62], [0x61, 0x62]), (bzBlockCrc [0x63], [0x63])]
+    (bzStreamCrc 0 [[0x61, 0x62], [0x63]]) = some exPayload := by decide +kernel
+example : bzDepack [(bzBlockCrc [0x61, 0x62], [0x61, 0x62]), (bzBlockCrc [0x63], [0x63])]
+    (bzStreamCrc 0 [[0x61, 0x62], [0x63]] ^^^ 1#32) = none := by decide +kernel
+example : bzDepack [(bzBlockCrc [0x61, 0x62], [0x61, 0x62]), (bzBlockCrc [0x62], [0x62])]
+    (bzStreamCrc 0 [[0x61, 0x62], [0x63]]) = none := by decide +kernel
+
 def exXzHdr : Bytes := [0xfd, 0x37, 0x7a, 0x58, 0x5a, 0x00, 0x00, 0x01, 0x69, 0x22, 0xde, 0x36]
 def exXzBh : Bytes := [0x02, 0x00, 0x21, 0x01, 0x16, 0x00, 0x00, 0x00, 0x74, 0x2f, 0xe5, 0xa3]
 def exXzFooter : Bytes := [0x90, 0x42, 0x99, 0x0d, 0x01, 0x00, 0x00, 0x00, 0x00, 0x01, 0x59, 0x5a]
@@ -260,6 +462,51 @@ example : xzAccept exXzHdr exXzBh [[0x61], [0x62, 0x63]] 891568579 [0x00, 0x01, 
     = none := by decide +kernel
 example : xzAccept (exXzHdr.set 7 0x00) exXzBh [[0x61], [0x62, 0x63]] 891568578 [0x00, 0x01, 0x17, 0x03] 3154927623 exXzFooter
     = none := by decide +kernel      -- check type byte hit: the header CRC refuses
+
+/-- a two-block xz file of the payload `abc` (container written by tools/c09_archives.py
+    `make_xz_multi`, block data by liblzma's raw LZMA2 encoder, accepted by liblzma): block 1 `ab`
+    with Compressed and Uncompressed Size fields, block 2 `c` with header padding -/
+def exXz2 : Bytes := [0xfd, 0x37, 0x7a, 0x58, 0x5a, 0x00, 0x00, 0x01, 0x69, 0x22, 0xde, 0x36, 0x03, 0xc0, 0x06, 0x02, 0x21,
+  0x01, 0x0c, 0x00, 0x00, 0x00, 0x00, 0x00, 0x29, 0xc9, 0x63, 0x6a, 0x01, 0x00, 0x01, 0x61, 0x62, 0x00, 0x00, 0x00, 0x6d,
+  0x48, 0x83, 0x9e, 0x03, 0x00, 0x21, 0x01, 0x0e, 0x00, 0x00, 0x00, 0x00, 0x00, 0x00, 0x00, 0x00, 0x7a, 0x25, 0xae, 0x01,
+  0x00, 0x00, 0x63, 0x00, 0x00, 0x00, 0x00, 0x6f, 0xdf, 0xb9, 0x06, 0x00, 0x02, 0x1a, 0x02, 0x19, 0x01, 0x00, 0x00, 0xff,
+  0xce, 0xe3, 0x06, 0x3e, 0x30, 0x0d, 0x8b, 0x02, 0x00, 0x00, 0x00, 0x00, 0x01, 0x59, 0x5a]
+/-- stand-in for the LZMA2 decoder on these two blocks (output of block 1 in two pieces) -/
+def exLz (_props : Nat) (inp : Bytes) : Option (Nat × List Bytes) :=
+  if inp.take 6 = [0x01, 0x00, 0x01, 0x61, 0x62, 0x00] then some (6, [[0x61], [0x62]])
+  else if inp.take 5 = [0x01, 0x00, 0x00, 0x63, 0x00] then some (5, [[0x63]]) else none
+example : xzDepack exLz exXz2 = some exPayload := by decide +kernel
+example : xzDepack exLz (exXz2.set 7 0x00) = none := by decide +kernel     -- Stream Flags (check type)
+example : xzDepack exLz (exXz2.set 14 0x07) = none := by decide +kernel    -- block 1 Compressed Size
+example : xzDepack exLz (exXz2.set 27 0x6b) = none := by decide +kernel    -- block 1 header CRC-32
+example : xzDepack exLz (exXz2.set 34 0x01) = none := by decide +kernel    -- Block Padding
+example : xzDepack exLz (exXz2.set 36 0x6c) = none := by decide +kernel    -- block 1 Check
+example : xzDepack exLz (exXz2.set 64 0x6e) = none := by decide +kernel    -- block 2 Check
+example : xzDepack exLz (exXz2.set 69 0x03) = none := by decide +kernel    -- Index: Number of Records
+example : xzDepack exLz (exXz2.set 71 0x03) = none := by decide +kernel    -- Index: Uncompressed Size of record 1
+example : xzDepack exLz (exXz2.set 76 0xfe) = none := by decide +kernel    -- Index CRC-32
+example : xzDepack exLz (exXz2.set 84 0x03) = none := by decide +kernel    -- Backward Size
+example : xzDepack exLz (exXz2.set 89 0x00) = none := by decide +kernel    -- footer Stream Flags ≠ header's
+example : xzDepack exLz (exXz2.take 91) = none := by decide +kernel        -- truncated
+/-- a decoder returning one flipped bit in block 2 is refused by that block's Check -/
+example : xzDepack (fun p i => if i.take 5 = [0x01, 0x00, 0x00, 0x63, 0x00] then some (5, [[0x62]]) else exLz p i) exXz2 = none := by
+  decide +kernel
+
+/-- a stored one-member zip of `abc` written by python's zipfile to an unseekable sink: the local
+    header has zero CRC/sizes + general-purpose bit 3, a data descriptor follows the data; the reader
+    trusts only the central directory -/
+def exZip : Bytes := [0x50, 0x4b, 0x03, 0x04, 0x14, 0x00, 0x08, 0x00, 0x00, 0x00, 0x00, 0x00, 0x21, 0x20, 0x00, 0x00, 0x00, 0x00, 0x00, 0x00, 0x00, 0x00, 0x00, 0x00, 0x00, 0x00, 0x05, 0x00, 0x00, 0x00, 0x61, 0x2e, 0x6d, 0x6f, 0x64, 0x61, 0x62, 0x63, 0x50, 0x4b, 0x07, 0x08, 0xc2, 0x41, 0x24, 0x35, 0x03, 0x00, 0x00, 0x00, 0x03, 0x00, 0x00, 0x00, 0x50, 0x4b, 0x01, 0x02, 0x14, 0x03, 0x14, 0x00, 0x08, 0x00, 0x00, 0x00, 0x00, 0x00, 0x21, 0x20, 0xc2, 0x41, 0x24, 0x35, 0x03, 0x00, 0x00, 0x00, 0x03, 0x00, 0x00, 0x00, 0x05, 0x00, 0x00, 0x00, 0x00, 0x00, 0x00, 0x00, 0x00, 0x00, 0x00, 0x00, 0x80, 0x01, 0x00, 0x00, 0x00, 0x00, 0x61, 0x2e, 0x6d, 0x6f, 0x64, 0x50, 0x4b, 0x05, 0x06, 0x00, 0x00, 0x00, 0x00, 0x01, 0x00, 0x01, 0x00, 0x33, 0x00, 0x00, 0x00, 0x36, 0x00, 0x00, 0x00, 0x00, 0x00]
+def exZipEnv : ZipEnv := { inflate := fun _ _ => none, excl := fun _ => false, junk := fun n => List.replicate n 0xbe }
+example : zipDepack exZipEnv exZip = some exPayload := by decide +kernel
+example : zipDepack exZipEnv (exZip.set 35 0x60) = none := by decide +kernel        -- member data
+example : zipDepack exZipEnv (exZip.set 70 (0xc3)) = none := by decide +kernel     -- central-directory CRC-32, one bit
+example : zipDepack exZipEnv (exZip.set 78 0x02) = none := by decide +kernel         -- central-directory uncompressed size
+example : zipDepack exZipEnv (exZip.set 74 0x00) = none := by decide +kernel         -- compressed size 0: refused by the reader's sanity test
+example : zipDepack exZipEnv (exZip.set 107 0x04) = none := by decide +kernel        -- EOCD signature
+/-- damage to the local header's (unused) CRC field or to the data descriptor is not noticed — and
+    does not matter: the payload is checked against the central directory -/
+example : zipDepack exZipEnv (exZip.set 14 0xff) = some exPayload := by decide +kernel
+example : zipDepack exZipEnv (exZip.set 42 0xff) = some exPayload := by decide +kernel
 
 /-! ## rejection -/
 
@@ -312,6 +559,36 @@ theorem C09_reject_zip_field (inflate : Bytes → Nat → Option Bytes) (junk : 
   · exact h h1
   · exact h h2
 
+/-- **zip, whole archive, rejection**: no central-directory record of the damaged file carries the
+    zip64 escape or a zero declared size, every CRC-32 field at a record position still holds the
+    CRC-32 of the packed payload (or at least not that of `out`), and `out` is within one ≤ 32-bit
+    burst of the payload: refused. -/
+theorem C09_reject_zip_archive (env : ZipEnv) (f orig out : Bytes)
+    (hne : ∀ p, le32 f p = 0x02014b50 → le32 f (p + 20) ≠ 0xFFFFFFFF ∧ le32 f (p + 24) ≠ 0xFFFFFFFF ∧ le32 f (p + 24) ≠ 0)
+    (hs : ∀ p, le32 f (p + 16) = (crc32A orig 0).toNat ∨ le32 f (p + 16) ≠ (crc32A out 0).toNat)
+    (hb : BitBurst 32 orig out) : zipDepack env f ≠ some out := by
+  intro h
+  obtain ⟨p, _, _, _, sig, _, _, _, g⟩ := C09_gate_zip_archive env f out h
+  obtain ⟨a, b, z⟩ := hne p sig
+  obtain ⟨hc, _⟩ := g a b z
+  rcases hs p with h1 | h1
+  · exact toNat32_ne (C09_crc32_detects orig out 0 hb) (h1.symm.trans hc)
+  · exact h1 hc
+
+/-- zip, whole archive, damaged CRC-32 / size field: the intact payload under a record whose CRC-32
+    or uncompressed-size field is anything else than the payload's is refused -/
+theorem C09_reject_zip_archive_field (env : ZipEnv) (f orig : Bytes)
+    (hne : ∀ p, le32 f p = 0x02014b50 → le32 f (p + 20) ≠ 0xFFFFFFFF ∧ le32 f (p + 24) ≠ 0xFFFFFFFF ∧ le32 f (p + 24) ≠ 0)
+    (hf : ∀ p, le32 f p = 0x02014b50 → le32 f (p + 16) ≠ (crc32A orig 0).toNat ∨ le32 f (p + 24) ≠ orig.length) :
+    zipDepack env f ≠ some orig := by
+  intro h
+  obtain ⟨p, _, _, _, sig, _, _, _, g⟩ := C09_gate_zip_archive env f orig h
+  obtain ⟨a, b, z⟩ := hne p sig
+  obtain ⟨hc, hl⟩ := g a b z
+  rcases hf p sig with h1 | h1
+  · exact h1 hc
+  · exact h1 hl
+
 /-- **bzip2**: if some block decodes to data within one ≤ 32-bit burst of what was packed under its
     (intact) header CRC, or a block's header CRC field is anything but the CRC of the data it decodes
     to (e.g. one flipped bit), the stream is refused -/
@@ -341,6 +618,86 @@ theorem C09_reject_xz_field (hdr bh : Bytes) (chunks : List Bytes) (check : Nat)
     obtain ⟨h0, h1, _⟩ := C09_gate_xz hdr bh chunks check index icrc footer out h
     rw [h0] at h1
     exact absurd h1 hf
+
+/-! ### xz, byte level: rejection.  Stated over the parse of the *damaged* file: no accepted parse
+contains a CRC-protected region that differs from what its stored CRC vouches for. -/
+
+/-- a region `R` accepted under the stored CRC-32 `S` is not within one ≤ 32-bit burst of any other
+    message `orig` that `S` is the CRC-32 of (every single-bit flip and every substitution of ≤ 4
+    adjacent bytes is such a burst) -/
+theorem crc32_vouches (S : Nat) (R orig : Bytes) (hacc : (crc32A R 0).toNat = S)
+    (hs : S = (crc32A orig 0).toNat) : ¬ BitBurst 32 orig R := by
+  intro hb
+  exact toNat32_ne (C09_crc32_detects orig R 0 hb) (hs.symm.trans hacc.symm)
+
+/-- **damage to a protected region, stored CRC-32 intact.**  For every CRC-protected region of the
+    container — Stream Flags, a Block Header (without its CRC), a Block's decoded output (check type
+    CRC-32), the Index (indicator, records, padding), the Stream Footer's Backward Size + flags — if
+    its stored CRC-32 is still the CRC-32 of the original region `orig` and the region found in the
+    file (resp. produced by the decoder) is within one ≤ 32-bit burst of `orig`, the file is refused. -/
+theorem C09_reject_xz_stream_burst (lz : Nat → Bytes → Option (Nat × List Bytes)) (f : Bytes) (P : XzParse)
+    (hp : xzParse lz f = some P) (orig : Bytes) :
+    (le32 f 8 = (crc32A orig 0).toNat → ¬ BitBurst 32 orig (slice f 6 2)) ∧
+    (∀ b ∈ P.blocks, le32 f (b.pos + (b.hdr.size - 4)) = (crc32A orig 0).toNat →
+        ¬ BitBurst 32 orig (slice f b.pos (b.hdr.size - 4))) ∧
+    (P.ct = 1 → ∀ b ∈ P.blocks, le32 f b.checkPos = (crc32A orig 0).toNat → ¬ BitBurst 32 orig b.chunks.flatten) ∧
+    (le32 f (P.footerPos - 4) = (crc32A orig 0).toNat →
+        ¬ BitBurst 32 orig (slice f P.indexPos (P.footerPos - 4 - P.indexPos))) ∧
+    (le32 f P.footerPos = (crc32A orig 0).toNat → ¬ BitBurst 32 orig (slice f (P.footerPos + 4) 6)) := by
+  have hd : xzDepack lz f = some P.output := by unfold xzDepack; rw [hp]; rfl
+  obtain ⟨P', hp', _, _, c, _, _, hb, _, ic, _, _, fc, _⟩ := C09_gate_xz_stream lz f _ hd
+  have e : P' = P := by rw [hp] at hp'; exact (Option.some.inj hp').symm
+  subst e
+  refine ⟨fun hs => crc32_vouches _ _ _ c hs, ?_, ?_, fun hs => crc32_vouches _ _ _ ic hs,
+    fun hs => crc32_vouches _ _ _ fc hs⟩
+  · intro b hbm hs
+    exact crc32_vouches _ _ _ (hb b hbm).1 hs
+  · intro hct b hbm hs
+    exact crc32_vouches _ _ _ ((hb b hbm).2.2.2.2.2 hct).symm hs
+
+/-- **damage to a stored field, region intact.**  No file is accepted in which a stored CRC-32
+    differs from the CRC-32 of its region (in particular: the right value with one flipped bit,
+    `flip_changes_value`), a padding byte is non-zero, the Backward Size is not the Index size, or the
+    footer's Stream Flags differ from the header's. -/
+theorem C09_reject_xz_stream_field (lz : Nat → Bytes → Option (Nat × List Bytes)) (f : Bytes) (P : XzParse)
+    (hbad : le32 f 8 ≠ (crc32A (slice f 6 2) 0).toNat ∨
+      (∃ b ∈ P.blocks, le32 f (b.pos + (b.hdr.size - 4)) ≠ (crc32A (slice f b.pos (b.hdr.size - 4)) 0).toNat) ∨
+      (P.ct = 1 ∧ ∃ b ∈ P.blocks, le32 f b.checkPos ≠ (crc32A b.chunks.flatten 0).toNat) ∨
+      (∃ b ∈ P.blocks, (slice f (b.pos + b.hdr.size + b.consumed) ((4 - b.consumed % 4) % 4)).any (· != 0) = true) ∨
+      le32 f (P.footerPos - 4) ≠ (crc32A (slice f P.indexPos (P.footerPos - 4 - P.indexPos)) 0).toNat ∨
+      le32 f P.footerPos ≠ (crc32A (slice f (P.footerPos + 4) 6) 0).toNat ∨
+      le32 f (P.footerPos + 4) ≠ (P.footerPos - 4 - P.indexPos) / 4 ∨
+      u8 f (P.footerPos + 8) ≠ u8 f 6 ∨ u8 f (P.footerPos + 9) ≠ u8 f 7) :
+    xzParse lz f ≠ some P := by
+  intro hp
+  have hd : xzDepack lz f = some P.output := by unfold xzDepack; rw [hp]; rfl
+  obtain ⟨P', hp', _, _, c, _, _, hb, _, ic, _, _, fc, bs, g1, g2⟩ := C09_gate_xz_stream lz f _ hd
+  have e : P' = P := by rw [hp] at hp'; exact (Option.some.inj hp').symm
+  subst e
+  rcases hbad with h | ⟨b, hm, h⟩ | ⟨hct, b, hm, h⟩ | ⟨b, hm, h⟩ | h | h | h | h | h
+  · exact h c.symm
+  · exact h (hb b hm).1.symm
+  · exact h ((hb b hm).2.2.2.2.2 hct)
+  · rw [(hb b hm).2.2.2.2.1] at h; exact absurd h (by simp)
+  · exact h ic.symm
+  · exact h fc.symm
+  · exact h bs.symm
+  · exact h g1
+  · exact h g2
+
+/-- a single flipped bit in the two Stream Flags bytes with the header CRC-32 intact: refused
+    (the simplest instance of `C09_reject_xz_stream_burst`, closed form) -/
+theorem C09_reject_xz_stream_flags (lz : Nat → Bytes → Option (Nat × List Bytes)) (f : Bytes) (a b a' b' : UInt8)
+    (hs : le32 f 8 = (crc32A [a, b] 0).toNat) (hf : slice f 6 2 = [a', b']) (hne : [a, b] ≠ [a', b']) :
+    xzDepack lz f = none := by
+  cases h : xzDepack lz f with
+  | none => rfl
+  | some out =>
+    exfalso
+    obtain ⟨P, hp, _⟩ := C09_gate_xz_stream lz f out h
+    refine (C09_reject_xz_stream_burst lz f P hp [a, b]).1 hs ?_
+    rw [hf]
+    exact byteBurst_bitBurst 4 _ _ ⟨[], [a, b], [a', b'], [], by simp, by simp, rfl, by simp, hne⟩
 
 /-- **ARC**: every CRC-16 field of the (damaged) archive still holds the CRC of `orig` or is
     otherwise unable to vouch for `out`: if no 16-bit field at an entry's CRC position equals
